@@ -110,6 +110,50 @@ class Sim(Layout):
             r = hook(self, recv, args, kwargs, n)
             if r is not NotImplemented:
                 return r
+        if not isinstance(f, (ast.Name, ast.Attribute)) and "*callable" in self.hooks:
+            v = self.ev(f, env, fi)
+            if isinstance(v, Sym):
+                args = [self.ev(a, env, fi) for a in n.args if not isinstance(a, ast.Starred)]
+                kwargs = {}
+                for k in n.keywords:
+                    if k.arg is not None:
+                        kwargs[k.arg] = self.ev(k.value, env, fi)
+                    else:
+                        vv = self.ev(k.value, env, fi)
+                        if isinstance(vv, dict):
+                            kwargs.update(vv)
+                r = self.hooks["*callable"](self, v, args, kwargs, n)
+                if r is not NotImplemented:
+                    return r
+        # a local name bound to a symbolic callable (sampler = self._grid_control; sampler(...))
+        if isinstance(f, ast.Name) and f.id in env and isinstance(env[f.id], Sym) and "*callable" in self.hooks:
+            args = [self.ev(a, env, fi) for a in n.args if not isinstance(a, ast.Starred)]
+            kwargs = {}
+            for k in n.keywords:
+                if k.arg is not None:
+                    kwargs[k.arg] = self.ev(k.value, env, fi)
+                else:
+                    v = self.ev(k.value, env, fi)
+                    if isinstance(v, dict):
+                        kwargs.update(v)
+            r = self.hooks["*callable"](self, env[f.id], args, kwargs, n)
+            if r is not NotImplemented:
+                return r
+        if isinstance(f, ast.Attribute) and "*callable" in self.hooks and not (self.hooks.get(full) or self.hooks.get(name)):
+            v = self.ev(f, env, fi)
+            if isinstance(v, Sym) and v.op == "attr" and v.args and v.args[0] == "self":
+                args = [self.ev(a, env, fi) for a in n.args if not isinstance(a, ast.Starred)]
+                kwargs = {}
+                for k in n.keywords:
+                    if k.arg is not None:
+                        kwargs[k.arg] = self.ev(k.value, env, fi)
+                    else:
+                        vv = self.ev(k.value, env, fi)
+                        if isinstance(vv, dict):
+                            kwargs.update(vv)
+                r = self.hooks["*callable"](self, v, args, kwargs, n)
+                if r is not NotImplemented:
+                    return r
         # builtins the layout interpreter has no use for
         if isinstance(f, ast.Name) and f.id == "sum" and len(n.args) == 1:
             v = self.ev(n.args[0], env, fi)
